@@ -24,8 +24,8 @@ type c12Txn struct {
 }
 
 func TestC12(t *testing.T) {
-	V.Rule("lab: rapid state machines over 2-8 simultaneous client connections to one TCP listener, all from one loopback address (one address of the process's private block stands in for 127.0.0.1), each request announcing a Via sent-by drawn from a set of 1-3 values that are shared between connections (equal sent-by on different connections is the common case), with or without rport, pairwise distinct branches, listen entries with received-support on and off; requests go to UDP and TCP backends; the backends answer outstanding transactions in any order across connections, 1xx (0-3 per transaction) before the single final response, INVITE and non-INVITE; unrelated UDP traffic and new connections in between. Oracle: every response is read on the connection whose request it answers and on no other connection; nothing is dialled to the announced sent-by address or to (client address, sent-by port), where the harness listens. non-trivial = history with >= 2 connections sharing a sent-by and >= 2 transactions open at once answered in another order than sent; distinct by history")
-	V.Require("connections share a sent-by", ">=2 transactions open at once", "answered out of order", "provisional before final", "non-INVITE with provisional", "support:off", "support:on", "tcp backend", "udp backend")
+	V.Rule("lab: rapid state machines over 2-8 simultaneous client connections to one TCP listener, all from one loopback address (one address of the process's private block stands in for 127.0.0.1), each request announcing a Via sent-by drawn from a set of 1-3 values that are shared between connections (equal sent-by on different connections is the common case), with or without rport, pairwise distinct branches that share a stem and end in a small running number (one is often a prefix of another), listen entries with received-support on and off; requests go to UDP and TCP backends; the backends answer outstanding transactions in any order across connections, 1xx (0-3 per transaction) before the single final response, INVITE and non-INVITE; unrelated UDP traffic and new connections in between. Oracle: every response is read on the connection whose request it answers and on no other connection; nothing is dialled to the announced sent-by address or to (client address, sent-by port), where the harness listens. non-trivial = history with >= 2 connections sharing a sent-by and >= 2 transactions open at once answered in another order than sent; distinct by history")
+	V.Require("a branch is a prefix of another branch of the history", "connections share a sent-by", ">=2 transactions open at once", "answered out of order", "provisional before final", "non-INVITE with provisional", "support:off", "support:on", "tcp backend", "udp backend")
 	s, err := newStdSvc(stdVariant{NoReceived: [3]string{"", "true", ""}})
 	if err != nil {
 		V.HarnessError(t, "cannot start lab instance: %v", err)
@@ -59,6 +59,8 @@ func TestC12(t *testing.T) {
 		var outstanding []*c12Txn
 		hist := []string{fmt.Sprintf("listen entry %d (received-support %v)", entry, stamp)}
 		maxOpen, outOfOrder, shared := 0, false, false
+		branchStem := s.nextID("b")
+		usedBranch := map[int]bool{}
 		V.ClassIf(stamp, "support:on")
 		V.ClassIf(!stamp, "support:off")
 
@@ -77,6 +79,19 @@ func TestC12(t *testing.T) {
 				ci := rapid.IntRange(0, len(conns)-1).Draw(rt, "conn")
 				c := conns[ci]
 				tx := &c12Txn{ID: s.nextID("x"), Conn: ci, Method: rapid.SampledFrom([]string{"INVITE", "OPTIONS", "MESSAGE", "REGISTER", "INFO"}).Draw(rt, "method")}
+				// branches of one history share a stem and end in a small running number:
+				// distinct, but one is often a prefix of another (..-1 / ..-10 / ..-12)
+				bn := rapid.IntRange(1, 24).Draw(rt, "branch number")
+				for usedBranch[bn] {
+					bn++
+				}
+				usedBranch[bn] = true
+				branch := fmt.Sprintf("%s-%d", branchStem, bn)
+				for o := range usedBranch {
+					if o != bn && (strings.HasPrefix(fmt.Sprint(o), fmt.Sprint(bn)) || strings.HasPrefix(fmt.Sprint(bn), fmt.Sprint(o))) {
+						V.Class("a branch is a prefix of another branch of the history")
+					}
+				}
 				tx.SentBy = sentBys[rapid.IntRange(0, len(sentBys)-1).Draw(rt, "sentby")]
 				if connSentBy[ci] == nil {
 					connSentBy[ci] = map[string]bool{}
@@ -92,7 +107,7 @@ func TestC12(t *testing.T) {
 					rport = ";rport"
 				}
 				wire := []byte(fmt.Sprintf("%s sip:svc.test SIP/2.0\r\nVia: SIP/2.0/TCP %s;branch=z9hG4bK%s%s\r\nFrom: <sip:c%d@client.example>;tag=f%s\r\nTo: <sip:svc@nomatch.example>\r\nCall-ID: c12-%s\r\nCSeq: 1 %s\r\nContent-Length: 0\r\n\r\n",
-					tx.Method, tx.SentBy, tx.ID, rport, ci, tx.ID, tx.ID, tx.Method))
+					tx.Method, tx.SentBy, branch, rport, ci, tx.ID, tx.ID, tx.Method))
 				hist = append(hist, fmt.Sprintf("c%d sends %s %s (sent-by %s%s)", ci, tx.Method, tx.ID, tx.SentBy, rport))
 				V.Journal(t.Name()+"/histories", hist)
 				sb, _ := splitHostPort(tx.SentBy)
